@@ -1,6 +1,8 @@
 """C15 — frequency sketches err on one side only."""
 from __future__ import annotations
 
+import array
+import base64
 import json
 import os
 
@@ -13,7 +15,12 @@ RULE = ("count-min: streams of add(x, delta) / batch_add(list, delta) over int a
         "to; all other model cells are 0 by C15_support), the row sums and query(x) for every item of the case (also "
         "never-inserted ones) are compared with the Coq model; non-trivial = some two items collide in some row or a weight "
         "differs from 1.  counter: streams of add(v) (30% of cases also batch_add) against PrimitiveConstrainedCounter(bound), "
-        "default_counter after every prefix compared; non-trivial = the number of distinct values reaches the bound")
+        "default_counter after every prefix compared; non-trivial = the number of distinct values reaches the bound.  "
+        "SCALE: batch_add calls of 4096..60000 items over 60..6000 distinct int/str items (width 64..2^15, depth 1..8) mixed with "
+        "single adds, full matrix / row sums / query of every item after every call; counter streams of 10^4..10^5 items with "
+        "bound-1 / bound / bound+1 distinct values; compute_cardinalities on a ~300k-distinct column in 3 mini-batches with the "
+        "bound just above / below the true cardinality; judged by the Python transcriptions of the models, which are compared "
+        "with the Coq models on every small case of the same run")
 THEOREMS = ["C15_lower", "C15_upper", "C15_defined", "C15_query_is_min", "C15_rows", "C15_cell", "C15_support", "C15_shape",
             "C15_check_sound", "C15_model_ok", "C15_obs_rows_agree", "C15_b_no_over", "C15_b_exact", "C15_b_exact_boundary", "C15_b_size",
             "C15_b_frozen", "C15_b_no_over_ops", "C15_b_exact_ops", "C15_b_batch_size_refuted",
@@ -221,16 +228,33 @@ def load_corpus(pid):
 # ---------------------------------------------------------------------------
 # Python mirrors (used only to shrink; held to the Coq model on every case)
 
+def cms_apply(M, loc, xs, delta):
+    """Transcription of CMS.add / CMS.step: every element of a batch is an add with the same delta; one cell per row."""
+    d = len(M)
+    for x in xs:
+        for i in range(d):
+            M[i][loc[i][x]] += delta
+
+
+def cms_query(M, loc, x):
+    """Transcription of CMS.query: minimum over the rows of the cell at the update-side location."""
+    return min(M[i][loc[i][x]] for i in range(len(M)))
+
+
+def counter_apply(c, bound, xs):
+    """Transcription of Bounded.cadd / cbatch: the size test is made once, before the whole op."""
+    if len(c) < bound:
+        for x in xs:
+            c[x] = c.get(x, 0) + 1
+
+
 def cms_mirror(case, loc):
     d, w = case["depth"], case["width"]
     M = [list(r) for r in case["M0"]] if case.get("M0") is not None else [[0] * w for _ in range(d)]
     out = []
     for op in case["ops"]:
-        xs = [op[1]] if op[0] == "add" else op[1]
-        for x in xs:
-            for i in range(d):
-                M[i][loc[i][x]] += op[2]
-        out.append({"q": [min(M[i][loc[i][x]] for i in range(d)) for x in range(len(case["items"]))],
+        cms_apply(M, loc, [op[1]] if op[0] == "add" else op[1], op[2])
+        out.append({"q": [cms_query(M, loc, x) for x in range(len(case["items"]))],
                     "cells": {(i, j): M[i][j] for i in range(d) for j in (range(w) if case.get("M0") is not None else set(loc[i]))},
                     "rows": [sum(r) for r in M]})
     return out
@@ -240,11 +264,190 @@ def counter_mirror(case):
     c = {}
     out = []
     for op in case["ops"]:
-        if len(c) < case["bound"]:
-            for x in ([op[1]] if op[0] == "add" else op[1]):
-                c[x] = c.get(x, 0) + 1
+        counter_apply(c, case["bound"], [op[1]] if op[0] == "add" else op[1])
         out.append(dict(c))
     return out
+
+
+# ---------------------------------------------------------------------------
+# SCALE families: large generated inputs, judged here by the transcriptions above (cms_apply / cms_query /
+# counter_apply -- the same functions that are compared with the Coq models on every small case of the run)
+
+def unb64(s, code):
+    a = array.array(code)
+    a.frombytes(base64.b64decode(s))
+    return a
+
+
+def gen_scale(rng, tier):
+    specs = []
+    sizes = [4096, 5000, 60000] if tier == "quick" else [4096, 4097, 5000, 20000, 60000, 60000]
+    for n in sizes:
+        width = rng.choice([64, 1000, 4096, 32768]) if n < 60000 else 32768
+        nd = rng.choice([60, 300, 1000]) if n < 60000 else 6000
+        calls = [["adds", rng.randint(50, 400), rng.choice([1, 2, 5]), rng.randint(0, 10 ** 9), False],
+                 ["batch", n, rng.choice([1, 1, 3]), rng.randint(0, 10 ** 9), rng.random() < 0.5],
+                 ["batch", rng.choice([10, 4095]), 1, rng.randint(0, 10 ** 9), False],
+                 ["adds", rng.randint(50, 400), 1, rng.randint(0, 10 ** 9), True]]
+        if rng.random() < 0.5:
+            calls.append(["batch", rng.choice([4096, 8000]), rng.choice([1, 2]), rng.randint(0, 10 ** 9), True])
+        specs.append({"kind": "scale_cms", "depth": rng.randint(1, 8), "width": width, "seed": rng.randint(0, 2 ** 31 - 1),
+                      "n_distinct": nd, "mix": rng.choice(["mixed", "mixed", "int", "str"]), "calls": calls})
+    for k, off in enumerate([-1, 0, 1] if tier == "quick" else [-1, 0, 1, -1, 0, 1, 5]):
+        bound = rng.choice([50, 1000, 30000])
+        specs.append({"kind": "scale_counter", "bound": bound, "n_distinct": bound + off,
+                      "n_items": min(10 ** 5, max(rng.choice([10 ** 4, 3 * 10 ** 4, 10 ** 5]), 3 * bound)), "seed": rng.randint(0, 10 ** 9),
+                      "mix": rng.choice(["mixed", "int", "str"]), "batch": (tier != "quick" and k >= 3), "skew": rng.random() < 0.3})
+    modes = ["above", "below"] if tier == "quick" else ["above", "above", "below", "far"]
+    for md in modes:
+        specs.append({"kind": "scale_pipeline", "seed": rng.randint(0, 10 ** 6), "lo": 290000, "hi": 310000, "mode": md, "tail": 2000})
+    return specs
+
+
+def judge_scale_cms(spec, r):
+    """Returns (None | (call index, clause text), statistics)."""
+    if not r["ok"]:
+        return (len(r["calls"]), "batch_add()/add()/query() terminates normally: %s" % r["error"]), {}
+    d, w, nd = spec["depth"], spec["width"], spec["n_distinct"]
+    flat = unb64(r["loc"], "i")
+    loc = [list(flat[i * nd:(i + 1) * nd]) for i in range(d)]
+    M = [[0] * w for _ in range(d)]
+    tw = [0] * nd
+    total = 0
+    coll = max(nd - len(set(loc[0])), 0) if d else 0
+    for k, (call, ob) in enumerate(zip(spec["calls"], r["calls"])):
+        ids = unb64(ob["ids"], "I")
+        if len(ids) != call[1]:
+            raise vlib.Broken("harness:c15-scale", "id sequence length")
+        cms_apply(M, loc, ids, call[2])
+        for x in ids:
+            tw[x] += call[2]
+        total += call[2] * len(ids)
+        if ob["shape"] != [d, w]:
+            return (k, "matrix shape %s is not depth x width" % ob["shape"]), {}
+        im = unb64(ob["M"], "q")
+        iq = unb64(ob["queries"], "q")
+        what = "%s of %d items (%d distinct available, delta %d)" % ("one batch_add" if call[0] == "batch" else "single adds", call[1], nd, call[2])
+        for i in range(d):
+            rs = sum(im[i * w:(i + 1) * w])
+            if rs != total:
+                return (k, "after call %d (%s): row %d sums to %d, total weight added is %d (C15_rows)" % (k, what, i, rs, total)), {}
+        for x in range(nd):
+            if iq[x] < tw[x]:
+                return (k, "after call %d (%s): query(item #%d) = %d is below its true accumulated weight %d (C15_lower)" % (k, what, x, iq[x], tw[x])), {}
+            if iq[x] > total:
+                return (k, "after call %d (%s): query(item #%d) = %d exceeds the total weight %d (C15_upper)" % (k, what, x, iq[x], total)), {}
+        for i in range(d):
+            if list(im[i * w:(i + 1) * w]) != M[i]:
+                j = next(j for j in range(w) if im[i * w + j] != M[i][j])
+                return (k, "after call %d (%s): matrix cell (%d, %d) is %d, model %d (C15_cell)" % (k, what, i, j, im[i * w + j], M[i][j])), {}
+        for x in range(nd):
+            if iq[x] != cms_query(M, loc, x):
+                return (k, "after call %d (%s): query(item #%d) = %d, model %d (C15_query_is_min)" % (k, what, x, iq[x], cms_query(M, loc, x))), {}
+    return None, {"items": total, "distinct": nd, "width": w, "depth": d, "colliding_items_row0": coll,
+                  "largest_batch": max(c[1] for c in spec["calls"] if c[0] == "batch")}
+
+
+def judge_counter_obs(bound, ids_upto, nd, ob, c, single, where):
+    counts = unb64(ob["counts"], "q")
+    if ob["unknown_keys"]:
+        return "%s: the counter tracks %d keys that were never fed" % (where, ob["unknown_keys"])
+    seen = {}
+    for x in ids_upto:
+        seen[x] = seen.get(x, 0) + 1
+    nkeys = sum(1 for v in counts if v != 0)
+    if nkeys != ob["len"]:
+        return "%s: default_counter holds %d keys of which %d have a non-zero count" % (where, ob["len"], nkeys)
+    for x in range(nd):
+        if counts[x] > seen.get(x, 0):
+            return "%s: item #%d counted %d times, fed %d times (C15_b_no_over)" % (where, x, counts[x], seen.get(x, 0))
+    if len(seen) < bound:
+        for x, n in seen.items():
+            if counts[x] != n:
+                return ("%s: %d distinct values seen (< bound %d) but item #%d is counted %d times instead of %d (C15_b_exact)"
+                        % (where, len(seen), bound, x, counts[x], n))
+    if single and ob["len"] > max(bound, 0):
+        return "%s: %d distinct values tracked with bound %d (C15_b_size)" % (where, ob["len"], bound)
+    for x in range(nd):
+        if counts[x] != c.get(x, 0):
+            return ("%s: item #%d counted %d times, model (fed item by item, updates refused once bound=%d keys are tracked) %d"
+                    % (where, x, counts[x], bound, c.get(x, 0)))
+    return None
+
+
+def judge_scale_counter(spec, r):
+    if not r["ok"]:
+        return (0, "add()/batch_add() terminates normally: %s" % r["error"]), {}
+    ids = unb64(r["ids"], "I")
+    chunks = {a: b for a, b in r["chunks"]}
+    c, k = {}, 0
+    obs = {o["at"]: o for o in r["obs"]}
+    single = True
+    reached = False
+    while k < len(ids):
+        if k in chunks:
+            counter_apply(c, spec["bound"], ids[k:chunks[k]])
+            k = chunks[k]
+            single = False
+        else:
+            counter_apply(c, spec["bound"], [ids[k]])
+            k += 1
+        reached = reached or len(c) >= spec["bound"]
+        if k in obs:
+            msg = judge_counter_obs(spec["bound"], ids[:k], spec["n_distinct"], obs[k], c, single, "after %d items" % k)
+            if msg:
+                return (k, msg), {}
+    return None, {"items": len(ids), "distinct_fed": len(set(ids)), "bound": spec["bound"], "bound_reached": reached,
+                  "with_batch_add": not single}
+
+
+def judge_scale_pipeline(spec, r):
+    if not r["ok"]:
+        return (0, "compute_cardinalities terminates normally: %s" % r["error"]), {}
+    ids = unb64(r["ids"], "I")
+    c = {}
+    s = 0
+    for b, (e, ob) in enumerate(zip(r["ends"], r["obs"])):
+        for x in ids[s:e]:
+            counter_apply(c, r["bound"], [x])           # the pipeline feeds the counter item by item
+        msg = judge_counter_obs(r["bound"], ids[:e], r["n"], ob, c, True,
+                                "column 'id' after mini-batch %d (%d distinct values so far, max_unique_hist_constraint %d, "
+                                "sketch estimate %d)" % (b, len(set(ids[:e])), r["bound"], ob["sketch_len"]))
+        if msg:
+            return (b, msg), {}
+        small = {}
+        for x in ids[:e]:
+            counter_apply(small, r["bound"], [x % 7])
+        if sorted(small.items()) != [tuple(kv) for kv in r["small"][b]]:
+            return (b, "column 'k' after mini-batch %d: counter %s, model %s" % (b, r["small"][b], sorted(small.items()))), {}
+        s = e
+    return None, {"distinct": r["n"], "bound": r["bound"], "mode": spec["mode"], "rows": len(ids),
+                  "sketch_estimate_after_batch1": r["sketch_estimate_after_batch1"], "sketch_overshoot": r["overshoot"]}
+
+
+JUDGE = {"scale_cms": judge_scale_cms, "scale_counter": judge_scale_counter, "scale_pipeline": judge_scale_pipeline}
+
+
+def check_scale(run, specs):
+    res = vlib.run_impl("impl_c15_scale.py", {"cases": specs}, timeout=3000)["results"]
+    stats = {"scale_cms": [], "scale_counter": [], "scale_pipeline": []}
+    bad = 0
+    for spec, r in zip(specs, res):
+        viol, st = JUDGE[spec["kind"]](spec, r)
+        nontrivial = bool(st) and (st.get("colliding_items_row0", 0) > 0 or st.get("bound_reached") or st.get("sketch_overshoot", 0) > 0)
+        run.count_case(spec, nontrivial)
+        if viol is None:
+            stats[spec["kind"]].append(st)
+            continue
+        bad += 1
+        if bad <= 3:
+            run.violation("counterexample", "C15 scale family (%s) vs the transcription of the Coq model" % spec["kind"], case=spec,
+                          impl={k: r.get(k) for k in ("error", "n", "bound", "sketch_estimate_after_batch1", "overshoot") if k in r},
+                          model="tools/props/c15.py cms_apply/cms_query/counter_apply (held to Sketch/CMS.v, Sketch/Bounded.v on every small case of this run)",
+                          clause=viol[1])
+    run.oblige("correspondence: SCALE families (%d generated inputs: large batch_add calls, long counter streams around the bound, "
+               "~300k-distinct pipeline column) vs the transcriptions of the models" % len(specs), bad == 0, "%d disagree" % bad)
+    return stats
 
 
 # ---------------------------------------------------------------------------
@@ -441,15 +644,22 @@ def check(run, replay):
         raise vlib.Broken("build:Sketch/CMS.vo", log)
     vlib.standard_proof_phase(run, ["Props/C15.vo"], "Outrank.Props.C15", THEOREMS)
 
+    scale = []
     if replay is not None:
         cases = [replay["case"]]
+        if cases[0]["kind"].startswith("scale_"):
+            # the transcriptions that judge the scale case are still held to the Coq models on small cases of this run
+            scale, cases = cases, [gen_cms(run.rng) if i % 2 else gen_counter(run.rng) for i in range(40)]
     else:
-        cases = load_corpus("C15")
+        corpus = load_corpus("C15")
+        scale = [c for c in corpus if c["kind"].startswith("scale_")]
+        cases = [c for c in corpus if not c["kind"].startswith("scale_")]
         n = 260 if run.tier == "quick" else 2500
         for i in range(n):
             cases.append(gen_cms(run.rng) if i % 5 < 3 else gen_counter(run.rng))
         for _ in range(60 if run.tier == "quick" else 400):
             cases.append(gen_pipeline(run.rng))
+        scale += gen_scale(run.rng, run.tier)
     out = vlib.run_impl("impl_c15.py", {"cases": cases})
     res = out["results"]
 
@@ -617,6 +827,10 @@ def check(run, replay):
     run.oblige("correspondence: counter kept by core_ranking.compute_cardinalities after every mini-batch (%d histories)" % (len(cases) - ncms - ncnt),
                not any(cases[i]["kind"] == "pipeline" for i, _ in fails), "%d histories disagree" % sum(1 for i, _ in fails if cases[i]["kind"] == "pipeline"))
     run.cov["input_distribution"] = hist
+    if scale:
+        if mirror_bad:
+            run.notes.append("scale families judged by transcriptions that differ from the Coq models on small cases: see obligation 'mirror'")
+        run.cov["scale_families"] = check_scale(run, scale)
     run.cov["default_bound_of_a_fresh_counter"] = out.get("default_bound")
     run.cov["exhaustive"] = False
     run.samples = [next((c for c in cases if c["kind"] == k), None) for k in ("cms", "counter", "pipeline")]
@@ -630,4 +844,7 @@ def check(run, replay):
         "harness: tools/props/c15.py (generators, id abstraction, sparse matrix comparison), tools/impl/impl_c15.py (drives the real classes, tabulates cms_hash)",
         "numba-compiled cms_hash / _add (oracle: the theorems hold for every hash function)",
         "coqparse.py (reads the terms coqc prints)",
+        "SCALE families are not executed in Coq: they are judged by cms_apply / cms_query / counter_apply in tools/props/c15.py, "
+        "the same functions whose outputs are compared with Eval vm_compute of the Coq models on every small case of the run (obligation 'mirror'); "
+        "tools/impl/impl_c15_scale.py generates the inputs from the spec",
     ]
